@@ -15,7 +15,7 @@ use nom::{
 use super::{
     asn1_type, asn1_value,
     common::{
-        extension_marker, identifier, in_braces, in_parentheses, range_seperator,
+        extension_marker, identifier, in_braces, in_parentheses, range_seperator, reserved_words,
         skip_ws_and_comments,
     },
     error::{MiscError, ParserResult},
@@ -389,7 +389,7 @@ fn user_defined_constraint(input: Input<'_>) -> ParserResult<'_, SubtypeElements
 /// ```
 fn user_defined_constraint_real(input: Input<'_>) -> ParserResult<'_, UserDefinedConstraint> {
     skip_ws_and_comments(into(preceded(
-        tag(CONSTRAINED_BY),
+        reserved_words(CONSTRAINED_BY),
         skip_ws_and_comments(delimited(
             char(LEFT_BRACE),
             take_until_unbalanced("{", "}"),
@@ -427,7 +427,7 @@ fn single_type_constraint(input: Input<'_>) -> ParserResult<'_, SubtypeElements>
     opt_delimited(
         skip_ws_and_comments(char(LEFT_PARENTHESIS)),
         skip_ws_and_comments(into(preceded(
-            tag(WITH_COMPONENT),
+            reserved_words(WITH_COMPONENT),
             skip_ws_and_comments(map(constraints, SubtypeElements::SingleTypeConstraint)),
         ))),
         skip_ws_and_comments(char(RIGHT_PARENTHESIS)),
@@ -458,7 +458,7 @@ fn multiple_type_constraints(input: Input<'_>) -> ParserResult<'_, SubtypeElemen
     opt_delimited(
         skip_ws_and_comments(char(LEFT_PARENTHESIS)),
         skip_ws_and_comments(into(preceded(
-            tag(WITH_COMPONENTS),
+            reserved_words(WITH_COMPONENTS),
             in_braces(pair(
                 opt(skip_ws_and_comments(terminated(
                     value(ExtensionMarker(), tag(ELLIPSIS)),
@@ -522,7 +522,7 @@ fn content_constraint(input: Input<'_>) -> ParserResult<'_, ContentConstraint> {
             map(
                 pair(
                     preceded(skip_ws_and_comments(tag(CONTAINING)), skip_ws(asn1_type)),
-                    preceded(skip_ws_and_comments(tag(ENCODED_BY)), skip_ws(asn1_value)),
+                    preceded(skip_ws_and_comments(reserved_words(ENCODED_BY)), skip_ws(asn1_value)),
                 ),
                 |v| ContentConstraint::ContainingEncodedBy {
                     containing: v.0,
@@ -534,7 +534,7 @@ fn content_constraint(input: Input<'_>) -> ParserResult<'_, ContentConstraint> {
                 ContentConstraint::Containing,
             ),
             map(
-                preceded(skip_ws_and_comments(tag(ENCODED_BY)), skip_ws(asn1_value)),
+                preceded(skip_ws_and_comments(reserved_words(ENCODED_BY)), skip_ws(asn1_value)),
                 ContentConstraint::EncodedBy,
             ),
         ))),
